@@ -79,7 +79,7 @@ pub fn run(ctx: &Ctx) -> i32 {
                 return;
             }
         };
-        let ninputs = if quick { 60 } else { 250 };
+        let ninputs = per_case(if quick { 60 } else { 250 });
         let mut nontrivial_inputs = 0;
         for n in 0..ninputs {
             let input = gen_scan_input(&sc, rng, if n % 4 == 0 { 20 } else { 8 });
